@@ -1,9 +1,16 @@
 package pc25
 
 import (
+	"os"
 	"testing"
 
+	"verifharness/cli"
 	"verifharness/ev"
 )
 
-func TestMain(m *testing.M) { ev.Main(m) }
+func TestMain(m *testing.M) {
+	code := m.Run()
+	cli.StopServer() // sql_cli drives the server-mode binary
+	ev.Flush()
+	os.Exit(code)
+}
